@@ -115,4 +115,34 @@ mutual
     | (_, v) :: rest => exprNames v ++ exprNamesKv rest
 end
 
+mutual
+  /-- the enum literals of a default literal, in order -/
+  def litEnums : Lit → List String
+    | .enum v => [v]
+    | .list xs => litEnumsL xs
+    | .obj kvs => litEnumsKv kvs
+    | _ => []
+  def litEnumsL : List Lit → List String
+    | [] => []
+    | x :: xs => litEnums x ++ litEnumsL xs
+  def litEnumsKv : List (String × Lit) → List String
+    | [] => []
+    | (_, v) :: rest => litEnums v ++ litEnumsKv rest
+end
+
+/-! ### the schema a pruned `input_types.py` is the module of -/
+
+/-- the definitions without the input types `generate(types_to_include=roots)` leaves out.  The emitted
+    classes never refer to a class that was left out (`C06.dependency_emitted`), so the module of the
+    emitted classes is the module generated for these definitions; that identity is validated by the
+    `construct` correspondence on pruned packages, not proved. -/
+def emittedDefs (m : Mode) (cfg : Cfg) (defs : List TypeDef) (roots : Option (List String)) : List TypeDef :=
+  match generate m cfg defs roots with
+  | none => defs
+  | some mod =>
+    let names := mod.classes.map (·.name)
+    defs.filter fun
+      | .input n _ => names.contains n
+      | _ => true
+
 end Ariadne.InputDeps
